@@ -281,14 +281,27 @@ func CheckMatchCase(d *Def, addr [20]byte, topics [][]byte, data []byte) (fs []F
 	return fs, fmt.Sprintf("match=%v err=%v alloc=%d documented=%d", got, merr, alloc, want)
 }
 
-func trimStack(s string) string {
+var (
+	stackArgs   = regexp.MustCompile(`\(0x[^)]*\)|\(\{0x[^)]*\)`)
+	stackOffset = regexp.MustCompile(` \+0x[0-9a-f]+.*$`)
+	inUse       = regexp.MustCompile(` \([0-9]+ in use\)`)
+)
+
+// TrimStack keeps the frames of the code under test and removes everything
+// that differs from run to run (argument words, pc offsets), so that the
+// message - and with it the replay file name - is stable.
+func TrimStack(s string) string {
 	lines := strings.Split(s, "\n")
 	var keep []string
 	for i := 0; i < len(lines); i++ {
-		if strings.Contains(lines[i], "shutterservice.") || strings.HasPrefix(lines[i], "panic(") {
-			keep = append(keep, lines[i])
+		l := lines[i]
+		switch {
+		case strings.Contains(l, "out of memory"), strings.HasPrefix(l, "fatal error"):
+			keep = append(keep, inUse.ReplaceAllString(l, ""))
+		case strings.Contains(l, "shutterservice.") || strings.HasPrefix(l, "panic("):
+			keep = append(keep, stackArgs.ReplaceAllString(l, "(...)"))
 			if i+1 < len(lines) {
-				keep = append(keep, lines[i+1])
+				keep = append(keep, stackOffset.ReplaceAllString(lines[i+1], ""))
 			}
 		}
 	}
@@ -297,6 +310,8 @@ func trimStack(s string) string {
 	}
 	return strings.Join(keep, "\n")
 }
+
+func trimStack(s string) string { return TrimStack(s) }
 
 // Equivalent: same contract, same predicates in order; integer arguments
 // compared by value, byte arguments by content (nil == empty).
